@@ -130,7 +130,7 @@ def make_free_edge_class(g, epoch_chi2=False):
     return EpochFreeEdge
 
 
-def structure_graph(P, g, kinds, edges, fixed, symbolic_ids=True, m=None, prefix="", epoch_chi2=False):
+def structure_graph(P, g, kinds, edges, fixed, symbolic_ids=True, m=None, prefix="", epoch_chi2=False, info="sym", raw_quat=()):
     """kinds: pose type per vertex (list order); edges: list of tuples of vertex indices; fixed: set of vertex indices.
     returns (graph, vertices, edge objects, ids)"""
     np = P.np
@@ -144,11 +144,17 @@ def structure_graph(P, g, kinds, edges, fixed, symbolic_ids=True, m=None, prefix
         P.distinct(ids)
     else:
         ids = list(range(nv))
-    verts = [g.Vertex(ids[i], mk_pose(P, g, kinds[i], "%sv%d" % (prefix, i), wrapped=True), fixed=(i in fixed)) for i in range(nv)]
+    def _pose(i):
+        if i in raw_quat and kinds[i] == "SE3":
+            # stored quaternion of ARBITRARY length (the library never normalises a user's vertex)
+            return g.PoseSE3(P.reals("%sv%d" % (prefix, i), 3), P.reals("%sv%d_rawq" % (prefix, i), 4))
+        return mk_pose(P, g, kinds[i], "%sv%d" % (prefix, i), wrapped=True)
+
+    verts = [g.Vertex(ids[i], _pose(i), fixed=(i in fixed)) for i in range(nv)]
     eobjs = []
     for k, tup in enumerate(edges):
         mm = m if m is not None else 2
-        om = P.sym_matrix("%som%d" % (prefix, k), mm, psd=True)
+        om = P.sym_matrix("%som%d" % (prefix, k), mm, psd=True) if info == "sym" else P.full_matrix("%som%d" % (prefix, k), mm, mm)
         err = P.vector("%se%d" % (prefix, k), mm)
         jacs = [P.full_matrix("%sJ%d_%d" % (prefix, k, a), mm, COMPACT[kinds[vi]]) for a, vi in enumerate(tup)]
         if P.symbolic:
